@@ -27,6 +27,10 @@ func main() {
 		// replaying histories on fresh worlds allocates heavily; memory is plentiful
 		debug.SetGCPercent(400)
 	}
+	if msg := props.ShapeSelfTest(); msg != "" {
+		fmt.Fprintln(os.Stderr, "BUILD-FAILURE: the canonical state dump (ecs.VerifShape) does not cover the current struct definitions: "+msg)
+		os.Exit(2)
+	}
 	switch os.Args[1] {
 	case "list":
 		for _, id := range props.ScenarioIDs() {
@@ -73,6 +77,12 @@ func main() {
 		dump := fs.Int("dump", 0, "dump level")
 		_ = fs.Parse(os.Args[2:])
 		os.Exit(props.C13Child(*name, *depth, *dump))
+	case "c19race":
+		tier := "quick"
+		if len(os.Args) > 2 {
+			tier = os.Args[2]
+		}
+		os.Exit(props.C19RaceBody(tier))
 	case "tinypart":
 		if len(os.Args) < 4 {
 			usage()
